@@ -1,7 +1,45 @@
-(* C40 placeholder *)
+(* C40 - disassembly and analysis agree on instruction offsets.  Property theorems only.
+   code = with_off 0 insl lists the instructions with the offsets at which the disassembler reports them. *)
 From Coq Require Import ZArith List.
-Require Import V.Analysis.CfgModel.
+Require Import V.Analysis.CfgModel V.Analysis.CfgProofs.
 Import ListNotations.
 Open Scope Z_scope.
-Example C40_nonvacuous : length (blocks_of (with_off 0 [{| ilen := 2; ikind := KIf 2 |}; {| ilen := 2; ikind := KPlain |}; {| ilen := 2; ikind := KExit |}]) []) = 3%nat.
-Proof. vm_compute. reflexivity. Qed.
+
+(* every block starts at an instruction offset and ends at one (or at the end of the code) *)
+Theorem C40_block_boundaries_are_instruction_offsets : forall insl excs b,
+  let code := with_off 0 insl in
+  In b (blocks_of code excs) ->
+  In (b_start b) (map fst code) /\ (In (b_end b) (map fst code) \/ b_end b = code_len code).
+Proof. exact block_boundaries. Qed.
+Print Assumptions C40_block_boundaries_are_instruction_offsets.
+
+(* the instructions a block holds are instructions of the method, at their offsets, inside the block's range *)
+Theorem C40_block_instructions_are_the_methods : forall insl excs b q, sized insl ->
+  In b (blocks_of (with_off 0 insl) excs) -> In q (b_ins b) ->
+  b_start b <= fst q /\ fst q + ilen (snd q) <= b_end b /\ In q (with_off 0 insl).
+Proof. exact block_instruction_range. Qed.
+Print Assumptions C40_block_instructions_are_the_methods.
+
+(* successor entries are attributed to the offset of the block's last instruction, which ends the block *)
+Theorem C40_edges_name_the_branching_instruction : forall insl excs b lidx li, In b (blocks_of (with_off 0 insl) excs) ->
+  b_last b = Some (lidx, li) -> lidx + ilen li = b_end b.
+Proof. exact last_instruction_ends_block. Qed.
+Print Assumptions C40_edges_name_the_branching_instruction.
+
+(* the payload linked to a switch or fill-array-data instruction at offset idx with encoded offset off is the instruction
+   that starts at idx + 2 * off (none if no instruction starts there) *)
+Theorem C40_linked_payload_is_at_the_encoded_offset : forall code b idx r,
+  In (idx, r) (special_ins code b) <->
+  exists i off, In (idx, i) (b_ins b) /\ (ikind i = KSwitch off \/ ikind i = KFill off) /\
+                r = option_map fst (find (fun q => fst q =? idx + off * 2) code).
+Proof. exact special_ins_spec. Qed.
+Print Assumptions C40_linked_payload_is_at_the_encoded_offset.
+
+(* fill-array-data +4 ; sparse-switch +6 (payload at a misaligned offset) ; return-void ; nop ; payloads *)
+Example C40_nonvacuous :
+  let insl := [{| ilen := 6; ikind := KFill 8 |}; {| ilen := 6; ikind := KSwitch 13 |}; {| ilen := 2; ikind := KExit |};
+               {| ilen := 2; ikind := KPlain |}; {| ilen := 22; ikind := KFillPayload |}; {| ilen := 12; ikind := KSwitchPayload [1] |}] in
+  let code := with_off 0 insl in
+  map (special_ins code) (blocks_of code []) = [[(0, Some 16); (6, None)]; []; []] /\
+  map (fun b => (b_start b, b_end b)) (blocks_of code []) = [(0, 12); (12, 14); (14, 50)].
+Proof. vm_compute. split; reflexivity. Qed.
